@@ -883,5 +883,91 @@ theorem createLoop_no_raise (m pe : Nat) (pdata : Bytes) (p : Primary) (bs : Lis
       · exact ih _
     · rfl
 
+/-! ### exact size of a fragment -/
+
+/-- replacing the data of the payload block (effective data `old`) by `d`: exact change of length -/
+theorem blksLen_setBtsd_eq (d : Bytes) (bs : List Blk) (pb : Blk) (h1 : n1 bs ≤ 1)
+    (hpb : payloadBlk bs = some pb) :
+    blksLen (setBtsd (some d) bs) + optLen pb.ensure.c.btsd = blksLen bs + optLen (some d) := by
+  induction bs with
+  | nil => simp [payloadBlk] at hpb
+  | cons x xs ih =>
+    by_cases hx : (x.c.blockNum == 1) = true
+    · have hxs : n1 xs = 0 := by
+        simp only [n1, List.filter_cons, hx, if_true, List.length_cons] at h1
+        simp only [n1]; omega
+      have hxp : x = pb := by
+        simp only [payloadBlk, List.find?_cons, hx] at hpb
+        exact Option.some.inj hpb
+      subst hxp
+      have hs : setBtsd (some d) (x :: xs) = { x with c := { x.c with btsd := some d } } :: xs := by
+        have := setBtsd_of_n1_zero (some d) xs hxs
+        simp only [setBtsd] at this
+        simp only [setBtsd, List.map_cons, hx, if_true, this]
+      rw [hs, blksLen_cons, blksLen_cons]
+      have := canon_len_setBtsd x d
+      omega
+    · have hx' : (x.c.blockNum == 1) = false := by simpa using hx
+      have hxs : n1 xs ≤ 1 := by
+        simp only [n1, List.filter_cons, hx'] at h1
+        simpa [n1] using h1
+      have hpb' : payloadBlk xs = some pb := by
+        simpa only [payloadBlk, List.find?_cons, hx'] using hpb
+      have hs : setBtsd (some d) (x :: xs) = x :: setBtsd (some d) xs := by
+        simp only [setBtsd, List.map_cons, hx']; rfl
+      rw [hs, blksLen_cons, blksLen_cons]
+      have := ih hxs hpb'
+      omega
+
+/-- the payload block of the "empty" fragment carries the empty string (one octet) -/
+theorem emptyFrag_payloadBlk (p : Primary) (bs : List Blk) (o t : Nat) (h : ∃ x ∈ bs, x.c.blockNum = 1) :
+    ∃ pb, payloadBlk (emptyFrag p bs o t).blocks = some pb ∧ pb.ensure.c.btsd = some [] := by
+  have hex : ∃ y ∈ selectBlocks o bs, y.c.blockNum = 1 := by
+    obtain ⟨x, hx, h1⟩ := h
+    exact ⟨x, List.mem_filter.2 ⟨hx, by simp [h1]⟩, h1⟩
+  simp only [emptyFrag, fillFields, clearPayload, List.map_map]
+  generalize selectBlocks o bs = l at hex
+  induction l with
+  | nil => simp at hex
+  | cons x xs ih =>
+    by_cases hx : (x.c.blockNum == 1) = true
+    · refine ⟨fillBlk { c := { x.c with btsd := some [] }, layer := none }, ?_, ?_⟩
+      · have hb : ((fillBlk { c := { x.c with btsd := some [] }, layer := none }).c.blockNum == 1) = true := by
+          rw [fillBlk_num]; exact hx
+        simp only [payloadBlk, List.map_cons, List.find?_cons, Function.comp, hx, if_true, hb]
+      · simp [fillBlk, Blk.ensure]
+    · have hx' : (x.c.blockNum == 1) = false := by simpa using hx
+      have hne : x.c.blockNum ≠ 1 := by simpa using hx
+      obtain ⟨y, hy, hy1⟩ := hex
+      have hy' : y ∈ xs := by
+        rcases List.mem_cons.1 hy with e | e
+        · exact absurd (e ▸ hy1) hne
+        · exact e
+      obtain ⟨pb, h1, h2⟩ := ih ⟨y, hy', hy1⟩
+      refine ⟨pb, ?_, h2⟩
+      simp only [payloadBlk, List.map_cons, List.find?_cons, Function.comp, hx', Bool.false_eq_true, if_false,
+        fillBlk_num]
+      simpa [payloadBlk, Function.comp] using h1
+
+/-- **Exact size of a fragment** ("payload swap"): the empty fragment, minus the one-octet empty
+    string, plus the CBOR head of the fragment's OWN payload length, plus the payload. -/
+theorem fragAt_size_eq (m pe : Nat) (pdata : Bytes) (p : Primary) (bs : List Blk) (o : Nat)
+    (h1 : n1 bs ≤ 1) (hp : ∃ x ∈ bs, x.c.blockNum = 1) :
+    (fragAt m pe pdata p bs o).size + 1 =
+      (emptyFrag p bs o pdata.length).size + headLen (pdataOf (fragAt m pe pdata p bs o)).length
+        + (pdataOf (fragAt m pe pdata p bs o)).length := by
+  obtain ⟨pb, hpb, hbt⟩ := emptyFrag_payloadBlk p bs o pdata.length hp
+  have hn := n1_emptyFrag p bs o pdata.length h1
+  have hpd : pdataOf (fragAt m pe pdata p bs o) = (pdata.drop o).take (budget m pe pdata p bs o) := by
+    simp [pdataOf, fragAt_payload m pe pdata p bs o hp]
+  have heq := blksLen_setBtsd_eq ((pdata.drop o).take (budget m pe pdata p bs o)) _ pb hn hpb
+  rw [hbt] at heq
+  have h0 : optLen (some ([] : Bytes)) = 1 := by decide
+  rw [h0] at heq
+  rw [hpd, size_eq, size_eq]
+  simp only [optLen] at heq
+  simp only [fragAt, budget] at *
+  omega
+
 end Frag
 end DtnVerif
